@@ -26,4 +26,4 @@ Produce THREE different changes (three independent patches, each against the pri
 
 Lines calling verifEvent/verifYield/verifTargetCreated in the code are instrumentation hooks (no-ops in normal builds). Keep each such call, with the same arguments, at the same logical point of the control flow (e.g. if you move the statement it follows into a helper, move the hook with it).
 
-Deliver in {out}/: `1/patch.diff` (output of `git diff`), `1/README.md` (what was changed and a short argument why behaviour is unchanged); same under `2/` and `3/`. Leave the worktree clean at the end (`git -C {wt} checkout -- . && git -C {wt} clean -fdq`). Finish with a two-line summary per change.""")
+Deliver in {out}/: `1/patch.diff` (output of `git diff`), `1/README.md` (what was changed and a short argument why behaviour is unchanged); same under `2/` and `3/`. Do NOT use `git stash` (the stash is shared between all worktrees of the repository and other engineers work in sibling worktrees): save your change with `git diff > file`, undo with `git checkout -- .`, re-apply with `git apply file`. Leave the worktree clean at the end (`git -C {wt} checkout -- . && git -C {wt} clean -fdq`). Finish with a two-line summary per change.""")
